@@ -11,6 +11,7 @@ package dawn
 // events for the TLA+ monitor BuildMon.
 
 import (
+	"net/url"
 	"math/rand"
 	"bufio"
 	"crypto/sha256"
@@ -141,6 +142,10 @@ func bValue(class string, ver int) string {
 		return fmt.Sprintf("{\"k\": %d, \"j\": [%d]}", ver, ver*65536)
 	case "float":
 		return fmt.Sprintf("%d.5", ver)
+	case "dictorder":
+		// the same mapping written in another order (equal as values, printed differently)
+		seq := []string{"{\"a\": 1, \"b\": 2}", "{\"b\": 2, \"a\": 1}", "{\"a\": 1, \"b\": 2, \"c\": 3}", "{\"c\": 3, \"a\": 1, \"b\": 2}"}
+		return seq[(ver-1)%len(seq)]
 	case "intfloat":
 		// the same number as an int and as a float: equal in Starlark, printed differently
 		seq := []string{"1", "1.0", "2", "2.0", "0", "-0.0", "3"}
@@ -317,6 +322,10 @@ func (w *bWorld) writeBuildFiles() error {
 				fmt.Fprintf(&b, "def _h_%s():\n    return %s\n@target(%s)\ndef _%s():\n%s    vexec(%q, _h_%s())\n\n", n, val, args, n, doc, n, n)
 			case "nested":
 				fmt.Fprintf(&b, "@target(%s)\ndef _%s():\n%s    def inner():\n        return %s\n    vexec(%q, inner())\n\n", args, n, doc, val, n)
+			case "recursive":
+				// the value is reached through a recursive and a pair of mutually recursive helpers
+				fmt.Fprintf(&b, "def _r_%s(n):\n    return %s if n <= 0 else _r_%s(n - 1)\ndef _e_%s(n):\n    return _r_%s(0) if n == 0 else _o_%s(n - 1)\ndef _o_%s(n):\n    return _e_%s(n - 1)\n@target(%s)\ndef _%s():\n%s    vexec(%q, _e_%s(2))\n\n",
+					n, val, n, n, n, n, n, n, args, n, doc, n, n)
 			case "flag":
 				fmt.Fprintf(&b, "F_%s = parse_flag(\"f_%s\", default=\"v1\")\n@target(%s)\ndef _%s():\n%s    vexec(%q, F_%s)\n\n", n, n, args, n, doc, n, n)
 			case "module":
@@ -400,6 +409,10 @@ func (w *bWorld) setup() error {
 	for n := range w.shape.Targets {
 		w.envVer[n] = 1
 	}
+	// something of the user's next to the build-state directory
+	os.MkdirAll(filepath.Join(w.dir, ".dawn", "notes"), 0755)
+	os.WriteFile(filepath.Join(w.dir, ".dawn", "notes", "keep.txt"), []byte("not build state"), 0644)
+	os.WriteFile(filepath.Join(w.dir, ".dawn", "settings.toml"), []byte("x = 1\n"), 0644)
 	return w.writeBuildFiles()
 }
 
@@ -594,7 +607,8 @@ func (e *bEvents) Print(l *label.Label, line string) {
 
 func bDigest(root string, state bool) string {
 	h := sha256.New()
-	stateDir := filepath.Join(root, ".dawn")
+	// the build-state directory; whatever else lives under .dawn is not dawn's to touch
+	stateDir := filepath.Join(root, ".dawn", "build")
 	filepath.WalkDir(root, func(p string, d fs.DirEntry, err error) error {
 		if err != nil {
 			return nil
@@ -656,6 +670,9 @@ func (w *bWorld) records() (map[string]string, int) {
 			name := e.Name()
 			if i := strings.LastIndex(name, "%2F"); i >= 0 {
 				name = name[i+3:]
+			}
+			if u, err := url.PathUnescape(name); err == nil {
+				name = u
 			}
 			name = strings.TrimSuffix(name, ".txt")
 			res[name] = fmt.Sprintf("%x", sha256.Sum256(b))[:12]
